@@ -13,13 +13,17 @@
   `ys.extend(XS.iter().map(..))` are all `loop(XS) … endloop` (`loop-rev` with a
   `.rev()`); `if let P = e {A} else {B}` is the two-arm `match`; an `if` ending in
   `return` takes the rest of the block as its else-branch and a tail `return` is
-  the tail value; arms over unit variants are sorted; a loop / branch / closure
-  in which nothing is recorded leaves no marker (that removes the drop
-  bookkeeping, C03's subject). Six behaviour-preserving refactorings of the
-  lowering (seeded/harmless H11 H13 H14 H16 H19 H55: iterator chain → `for`,
-  reordered disjoint arms, renamed / un-shadowed locals, `if let … return` →
-  `match`) leave every skeleton below unchanged; every seeded order defect
-  changes at least one.
+  the tail value; arms over unit variants are sorted and the last arm of a `match`
+  (no guard, no binder) is `arm(_)`; a loop / branch / closure in which nothing is
+  recorded leaves no marker and a call of a helper of `Lowerer` that does nothing
+  but drop bookkeeping is not a step (that removes the drop bookkeeping, C03's
+  subject). Eleven behaviour-preserving refactorings of the lowering
+  (seeded/harmless H9–H14, H16–H19, H55: iterator chain ↔ `for`, reordered
+  disjoint arms, renamed / un-shadowed locals, `match` ↔ `if let`, `if let …
+  return` → `match`, a drop loop moved into a helper) leave every skeleton below
+  unchanged; H15 (a sub-expression of a recorded argument moved into a local of
+  its own) does not — that shape needs a re-pin; every seeded order defect changes
+  at least one.
 
   A regrouped, reversed, dropped or duplicated step changes the generated
   definition and the theorem below stops checking; the check then searches for
@@ -91,7 +95,7 @@ theorem source_normalized_function_call : LowerOrder.normalizedFunctionCall = [
   "match(v9.definition)",
   "arm(FunctionDefinition::Runtime(_))",
   "Value::CallRuntime{func_ref:v10,args:v11,mir_signature:v12,vtables:v13}",
-  "arm(FunctionDefinition::Roto)",
+  "arm(_)",
   "Value::Call{func:v14,args:v11,mir_signature:v12}",
   "endmatch"
 ] := rfl
@@ -108,7 +112,7 @@ theorem source_function_call : LowerOrder.functionCall = [
   "self.normalized_function_call(&v7,None,v6)",
   "arm(ResolvedPath::EnumConstructor{ty:_,_})",
   "self.enum_constructor(v8,v9.name,v6)",
-  "arm(ResolvedPath::Value{..})",
+  "arm(_)",
   "endmatch",
   "arm(ast::Expr::Access(_,_))",
   "v10=self.expr(v11)",
@@ -216,7 +220,7 @@ theorem source_block : LowerOrder.block = [
   "match(&v0.last)",
   "arm(Some(_))",
   "self.expr(v2)",
-  "arm(None)",
+  "arm(_)",
   "endmatch",
   "v3=self.assign_to_var(v4.clone(),v5)"
 ] := rfl
@@ -245,7 +249,7 @@ theorem source_return_expr : LowerOrder.returnExpr = [
   "match(v0)",
   "arm(Some(_))",
   "self.expr(v1)",
-  "arm(None)",
+  "arm(_)",
   "endmatch",
   "match(v2)",
   "arm(ast::ReturnKind::Accept)",
